@@ -2963,3 +2963,68 @@ func ruleIndexPairOrdered(c *eng.Ctx) {
 		})
 	}
 }
+
+// R2.22 [C02]
+func ruleTailIndexGuarded(c *eng.Ctx) {
+	const R = "R2.22-TAIL-INDEX-GUARDED"
+	c.Rule(R, "an element further back than the last one, x[len(x)-k] with k >= 2, is read only where len(x) >= k is established on the way (a comparison of len(x) with a constant, or of the position itself with 0): text that is shorter than the look-behind — a one-letter sentence after a reset of the buffer — otherwise indexes at -1 and panics", 1, 1)
+	for _, fn := range c.P.ModuleFuncs() {
+		if fn.Blocks == nil {
+			continue
+		}
+		n := 0
+		eng.Instrs(fn, true, func(in ssa.Instruction) {
+			var base, index ssa.Value
+			switch x := in.(type) {
+			case *ssa.IndexAddr:
+				base, index = x.X, x.Index
+			case *ssa.Index:
+				base, index = x.X, x.Index
+			default:
+				return
+			}
+			sub, ok := index.(*ssa.BinOp)
+			if !ok || sub.Op != token.SUB {
+				return
+			}
+			k, isC := eng.ConstInt(sub.Y)
+			if !isC || k < 2 {
+				return // x[len(x)-1] is the "last element" idiom: whether x is non-empty is an invariant of how it was built
+			}
+			ln, ok := sub.X.(*ssa.Call)
+			if !ok || eng.CalleeName(ln) != "builtin:len" || !eng.SameValue(ln.Call.Args[0], base) {
+				return
+			}
+			n++
+			host := in.Parent()
+			isLen := func(v ssa.Value) bool {
+				call, ok := v.(*ssa.Call)
+				return ok && eng.CalleeName(call) == "builtin:len" && eng.SameValue(call.Call.Args[0], base)
+			}
+			guarded := eng.GuardedBy(host, in.Block(), func(f eng.Fact) bool {
+				op, x, y, ok := f.Cmp()
+				if !ok {
+					return false
+				}
+				if cst, isC := eng.ConstInt(y); isC && isLen(x) {
+					return (op == token.GEQ && cst >= k) || (op == token.GTR && cst >= k-1) || (op == token.EQL && cst >= k) || (op == token.NEQ && cst == 0 && k == 1)
+				}
+				if cst, isC := eng.ConstInt(x); isC && isLen(y) {
+					return (op == token.LEQ && cst >= k) || (op == token.LSS && cst >= k-1) || (op == token.NEQ && cst == 0 && k == 1)
+				}
+				// len(x)-k >= 0 spelled on the position
+				if cst, isC := eng.ConstInt(y); isC && eng.SameValue(x, index) {
+					return (op == token.GEQ && cst >= 0) || (op == token.GTR && cst >= -1)
+				}
+				return false
+			})
+			if !guarded {
+				// the slice was just extended in this block (append(x, e)[len-1]) or is a non-empty literal
+				if call, ok := base.(*ssa.Call); ok && eng.CalleeName(call) == "builtin:append" && k == 1 {
+					guarded = true
+				}
+			}
+			c.Check(guarded, R, fmt.Sprintf("%s#tail%d(len-%d)", eng.FuncName(fn), n, k), in.Pos(), fmt.Sprintf("len >= %d holds", k), fmt.Sprintf("x[len(x)-%d] is read without len(x) >= %d being established: a value shorter than that indexes below 0 (index out of range)", k, k))
+		})
+	}
+}
